@@ -79,8 +79,25 @@ def run_check(mod, tier, seed, replay=None):
 def run_replay(mod, rep, path):
     with open(path) as f:
         blob = json.load(f)
-    case = blob["case"]["case"] if "case" in blob.get("case", {}) else blob["case"]
     want = blob.get("sig")
+    if "cases" in blob.get("case", {}):
+        # a violation found by comparing several executions (group oracle): re-run the whole group and compare again
+        cases = blob["case"]["cases"]
+        for i in range(getattr(mod, "REPLAY_ATTEMPTS", 3)):
+            rep2 = Report(mod.PROP, rep.tier, rep.seed, mod.LEVEL, mod.RULE)
+            rep2.known = []
+            results = pmap(mod, cases, getattr(mod, "PROCS", None))
+            for c, r in zip(cases, results):
+                absorb(rep2, c, r)
+            mod.finalize(rep2, cases, results, rep.tier, rep.seed)
+            sigs = [v[0] for v in rep2.violations]
+            print("replay attempt %d (group of %d executions): violations=%s" % (i + 1, len(cases), sorted(set(sigs))[:6]))
+            if want in sigs:
+                print("VIOLATION property=%s replay=%s" % (mod.PROP, path))
+                return 1
+        print("replay: violation %s not reproduced" % want)
+        return 0
+    case = blob["case"]["case"] if "case" in blob.get("case", {}) else blob["case"]
     attempts = getattr(mod, "REPLAY_ATTEMPTS", 5)
     hit = False
     for i in range(attempts):
